@@ -87,8 +87,7 @@ theorem denotation_lists_unknown (S : Schema) (sid : Nat) (vs : List Val) (fs : 
   rw [holderFields_ser _ (wfFields_sublist _ _ (unknownOnly_sublist _ fs) hw)]
 
 /-- **an intermediary with an older schema loses nothing.**  For every schema without `nocopy` fields
-    satisfying the side conditions of C01 (`S.rtSide`), every well-formed message whose bool bytes are
-    0 / 1 (`canonBoolsFields`; the decoder stores any other byte into a Go bool as it is), any trailing
+    satisfying the side conditions of C01 (`S.rtSide`), every well-formed message, any trailing
     bytes, and every typed destination whose holders are field lists: if `DecodeObject` accepts the
     message then the value it returns is a typed value of the struct (`hasTy`, type soundness of the
     decoder: Proofs/ReadTyped.lean) all of whose holders are field lists, so `EncodeObject` applied to
@@ -99,7 +98,7 @@ theorem denotation_lists_unknown (S : Schema) (sid : Nat) (vs : List Val) (fs : 
 theorem intermediary_loses_nothing (S : Schema) (hS : S.ok = true) (hside : S.rtSide)
     (hdf : ∀ sid, ∀ f ∈ (S.get sid).fields, ∀ d, f.dflt = some d → fitH d = true)
     (sid : Nat) (fs : List (Nat × TVal)) (trailing : Bytes) (dest w : Val) (n : Nat)
-    (hw : wfFields fs = true) (hc : canonBoolsFields fs = true)
+    (hw : wfFields fs = true)
     (hdt : hasTy S (.strct sid) dest = true) (hdh : fitH dest = true)
     (h : decodeM Generated.params S sid (ser (.strct fs) ++ trailing) dest = .ok (w, n)) :
     hasTy S (.strct sid) w = true ∧ fitH w = true ∧
@@ -110,7 +109,7 @@ theorem intermediary_loses_nothing (S : Schema) (hS : S.ok = true) (hside : S.rt
   obtain ⟨w0, h0, e⟩ := mapv_ok_inv _ _ _ h
   simp only [Prod.mk.injEq] at e
   obtain ⟨rfl, _⟩ := e
-  have hty := readMessage_typed Generated.params S hS hside sid fs trailing.length dest _ hw hc hdt h0
+  have hty := readMessage_typed Generated.params S hS hside sid fs trailing.length dest _ hw hdt h0
   refine ⟨hty, hfit, ?_, toWireH_wf S hS _ (.strct sid) rfl rfl hty hfit⟩
   unfold appendM
   rw [appendAny_eq Instances.params_valid S hS _ (.strct sid) rfl hty]
